@@ -545,3 +545,132 @@ def module_level_one_shot(index, rels):
                     if readers:
                         out.append((rel, st, name, readers))
     return out
+
+
+def storage_alias_writes(index, rels, lanes=("kcals", "fat", "protein")):
+    """[(rel, function, statement, alias, source text)]: a local bound to the storage of a nutrient series that lives outside the function
+    (`x = <parameter or self ...>.kcals`, or a list collecting such, or a loop variable running over such a list) and then changed in place
+    (`x += ...`, `x[...] = / *= ...`, `x.fill(...)`): for a numpy array that rewrites the series of the object the caller still holds"""
+    from .core import walk_no_nested, norm_src
+    out = []
+
+    def root_of(e):
+        while True:
+            if isinstance(e, ast.Attribute):
+                e = e.value
+            elif isinstance(e, ast.Subscript):
+                e = e.value
+            elif isinstance(e, ast.Call) and isinstance(e.func, ast.Name) and e.func.id == "getattr" and e.args:
+                e = e.args[0]
+            else:
+                break
+        return e.id if isinstance(e, ast.Name) else None
+
+    for rel in rels:
+        mod = index.module(rel)
+        for fn in [n for n in ast.walk(mod) if isinstance(n, ast.FunctionDef)]:
+            params = {a.arg for a in fn.args.args + fn.args.kwonlyargs}
+            assigns = {}
+            for st in walk_no_nested(fn):
+                if isinstance(st, ast.Assign):
+                    for t in st.targets:
+                        if isinstance(t, ast.Name):
+                            assigns.setdefault(t.id, []).append(st)
+            # names that stand for objects living outside the function: parameters, and locals bound (only ever) to places rooted at such names
+            outer = set(params)
+            # ... and locals that receive what another routine of the repository hands back (`a, b = self.compute(...)`: the object is the
+            # callee's, and is usually handed on): everything except what is evidently made here (a constructor, a numpy / copy call, a literal)
+            for st in walk_no_nested(fn):
+                if isinstance(st, ast.Assign) and isinstance(st.value, ast.Call):
+                    d_ = st.value.func
+                    made_here = (isinstance(d_, ast.Name) and (d_.id[:1].isupper() or d_.id in ("list", "dict", "tuple", "set", "sorted", "range", "zip", "open", "len", "deepcopy"))) \
+                        or (isinstance(d_, ast.Attribute) and isinstance(d_.value, ast.Name) and d_.value.id in ("np", "numpy", "copy", "pd", "pandas", "math", "plt", "os", "json", "yaml")) \
+                        or (isinstance(d_, ast.Attribute) and d_.attr in ("copy", "deepcopy"))
+                    fresh_method = isinstance(d_, ast.Attribute) and (d_.attr.startswith("in_units") or d_.attr.startswith("get_") and d_.attr.endswith("_sum"))
+                    if not made_here and not fresh_method and (isinstance(d_, ast.Attribute) or (isinstance(d_, ast.Name) and d_.id[:1].islower())):
+                        for t in st.targets:
+                            for x in ([t] if isinstance(t, ast.Name) else (t.elts if isinstance(t, ast.Tuple) else [])):
+                                if isinstance(x, ast.Name) and len(assigns.get(x.id, [])) <= 1:
+                                    outer.add(x.id)
+            changed = True
+            while changed:
+                changed = False
+                for name, sts in assigns.items():
+                    if name in outer or name in params:
+                        continue
+                    if all(isinstance(s_.value, (ast.Attribute, ast.Subscript)) and root_of(s_.value) in outer and len(s_.targets) == 1 for s_ in sts):
+                        outer.add(name)
+                        changed = True
+
+            def is_storage(v):
+                return isinstance(v, ast.Attribute) and v.attr in lanes and isinstance(v.value, (ast.Name, ast.Attribute, ast.Subscript, ast.Call)) \
+                    and not (isinstance(v.value, ast.Call) and not (isinstance(v.value.func, ast.Name) and v.value.func.id == "getattr")) \
+                    and root_of(v) in outer
+
+            def scalar_owner(v):
+                """`self.A.<lane>` where the class only ever binds self.A to Food(x, <number>, <number>): one number per nutrient, not a
+                series - an augmented assignment to a local holding it rebinds the local"""
+                o = v.value
+                cls_ = getattr(fn, "_parent", None)
+                if not (isinstance(o, ast.Attribute) and isinstance(o.value, ast.Name) and o.value.id == "self" and isinstance(cls_, ast.ClassDef)):
+                    return False
+                binds = [s_.value for s_ in ast.walk(cls_) if isinstance(s_, ast.Assign) for t_ in s_.targets
+                         if isinstance(t_, ast.Attribute) and t_.attr == o.attr and isinstance(t_.value, ast.Name) and t_.value.id == "self"]
+                foods = [b_ for b_ in binds if isinstance(b_, ast.Call) and isinstance(b_.func, ast.Name) and b_.func.id == "Food"]
+                rest = [b_ for b_ in binds if b_ not in foods]
+                return bool(foods) and all(any(isinstance(a_, ast.Constant) and isinstance(a_.value, (int, float))
+                                               for a_ in list(b_.args) + [k_.value for k_ in b_.keywords]) for b_ in foods) \
+                    and all(isinstance(b_, ast.Call) and isinstance(b_.func, ast.Attribute) and isinstance(b_.func.value, ast.Name)
+                            and b_.func.value.id == "self" for b_ in rest)
+
+            _is_storage0 = is_storage
+
+            def is_storage(v, _f=_is_storage0):
+                return _f(v) and not scalar_owner(v)
+
+            alias, lists = {}, {}
+            for st in walk_no_nested(fn):
+                if isinstance(st, ast.Assign) and len(st.targets) == 1 and isinstance(st.targets[0], ast.Name):
+                    if is_storage(st.value):
+                        alias.setdefault(st.targets[0].id, []).append(st)
+                    elif isinstance(st.value, (ast.List, ast.Tuple)) and st.value.elts and any(is_storage(e) for e in st.value.elts):
+                        lists.setdefault(st.targets[0].id, []).append(st)
+                elif isinstance(st, ast.Expr) and isinstance(st.value, ast.Call) and isinstance(st.value.func, ast.Attribute) and st.value.func.attr == "append" \
+                        and isinstance(st.value.func.value, ast.Name) and len(st.value.args) == 1 and is_storage(st.value.args[0]):
+                    lists.setdefault(st.value.func.value.id, []).append(st)
+            if not alias and not lists:
+                continue
+            # loop variables running over a list of storage references
+            for st in walk_no_nested(fn):
+                if isinstance(st, ast.For) and isinstance(st.target, ast.Name) and isinstance(st.iter, ast.Name) and st.iter.id in lists:
+                    alias.setdefault(st.target.id, []).append(lists[st.iter.id][0])
+            for st in walk_no_nested(fn):
+                tgt = None
+                if isinstance(st, ast.AugAssign):
+                    tgt = st.target
+                elif isinstance(st, ast.Assign) and any(isinstance(t, ast.Subscript) for t in st.targets):
+                    tgt = [t for t in st.targets if isinstance(t, ast.Subscript)][0]
+                elif isinstance(st, ast.Expr) and isinstance(st.value, ast.Call) and isinstance(st.value.func, ast.Attribute) \
+                        and st.value.func.attr in ("fill", "sort", "resize", "put", "itemset", "partition"):
+                    tgt = st.value.func.value
+                if tgt is None:
+                    continue
+                base, depth = tgt, 0
+                while isinstance(base, ast.Subscript):
+                    base = base.value
+                    depth += 1
+                if not isinstance(base, ast.Name):
+                    continue
+                if base.id in alias:
+                    defs = assigns.get(base.id, [])
+                    stor = [s_ for s_ in alias[base.id] if s_.lineno < st.lineno]
+                    # every plain definition of the name is such a storage reference (rebinding to a copy first would be safe)
+                    if stor and all(s_ in alias[base.id] for s_ in defs):
+                        src = stor[-1].value if isinstance(stor[-1], ast.Assign) else stor[-1].value.args[0]
+                        out.append((rel, fn, st, base.id, norm_src(src)[:80]))
+                elif base.id in lists and depth >= 1 and (isinstance(st, ast.AugAssign) or depth >= 2):
+                    if all(s_ in lists[base.id] or (isinstance(s_.value, (ast.List, ast.Tuple)) and not s_.value.elts) for s_ in assigns.get(base.id, [])):
+                        s0 = lists[base.id][0]
+                        src = s0.value.args[0] if isinstance(s0, ast.Expr) else next(e for e in s0.value.elts if is_storage(e))
+                        out.append((rel, fn, st, base.id + "[...]", norm_src(src)[:80]))
+    return out
